@@ -60,7 +60,10 @@ static inline bool pw(const std::string &s, long double &v) {
     v = strtold(s.c_str(), nullptr);
     return true;
 }
-static inline bool pf(const std::string &s, bool &v) { if (s == "1") { v = true; return true; } if (s == "0") { v = false; return true; } return false; }
+// flag tokens: 0 / 1, or `d` = "leave the argument out" (the call site then uses the overload / default argument);
+// g_dflt tells the call site which it was
+static bool g_dflt = false;
+static inline bool pf(const std::string &s, bool &v) { g_dflt = false; if (s == "1") { v = true; return true; } if (s == "0") { v = false; return true; } if (s == "d") { v = false; g_dflt = true; return true; } return false; }
 
 template <class F> static std::string guard(F f) {
     try { return f(); }
@@ -99,11 +102,19 @@ static inline std::string showQuarterLD(long double w) {
     char buf[64]; snprintf(buf, sizeof buf, "%La", w); return std::string("~") + buf;
 }
 static inline std::string showQuarter(double w) { return showQuarterLD((long double)w); }
+// a weight as the model sees it: divided by the scale of `mode wscale`, and snapped to the quarter unit it denotes
+// when the division left a rounding error of that size only
+static inline std::string showW(long double w) {
+    if (g_wscale == 1.0L || !std::isfinite((double)w)) return showQuarterLD(w);
+    long double q = w / g_wscale * 4.0L, r = std::nearbyint((double)q);
+    if (std::fabs((double)(q - r)) < 1e-6 && std::fabs((double)r) < 9e15) return std::to_string((long long)r);
+    return showQuarterLD(w / g_wscale);
+}
 static inline std::string showWMatrix(const std::vector<std::vector<double>> &m) {
     std::string s;
     for (size_t i = 0; i < m.size(); ++i) {
         if (i) s += " / ";
-        for (size_t j = 0; j < m[i].size(); ++j) { if (j) s += " "; s += showQuarter(m[i][j]); }
+        for (size_t j = 0; j < m[i].size(); ++j) { if (j) s += " "; s += showW(m[i][j]); }
     }
     return s;
 }
